@@ -415,3 +415,17 @@ Example C09_nonvacuous :
    is_ok (snd (step ex_lhash w1 (OToken ex_iss (PS "S1") (ex_token_resp (Some (ex_tok_te (PS "N1") (PS "diana")))) ex_now)))
      = true).
 Proof. vm_compute. repeat split. Qed.
+
+(* --- round 12: the look-up by state is the source's Current.get --- *)
+From Verif Require Lib.PyOps Gen.Src_current Proofs.Src_refine_current.
+Theorem C09_current_get_is_source : forall db map k clock,
+  Src_current.Current_get_src (Src_refine_current.inject_current db map) (VStr k) clock
+  = Src_refine_current.lift_rec (db_get db k).
+Proof. exact Src_refine_current.current_get_refines. Qed.
+Print Assumptions C09_current_get_is_source.
+Theorem C09_lookup_ignores_bound_keys : forall db m1 m2 k clock,
+  Src_current.Current_get_src (Src_refine_current.inject_current db m1) (VStr k) clock
+  = Src_current.Current_get_src (Src_refine_current.inject_current db m2) (VStr k) clock.
+Proof. exact Src_refine_current.current_get_ignores_map. Qed.
+Print Assumptions C09_lookup_ignores_bound_keys.
+(* --- end round 12 --- *)
